@@ -186,6 +186,12 @@ Theorem C03_converges_bounded : forall hc hu lc T,
 Proof. exact calm_converges. Qed.
 Print Assumptions C03_converges_bounded.
 
+(* [calmb] decides the hypothesis; the harness evaluates it on every state of every recorded history of the real
+   operator and reports how many are calm (evidence: calm_states_in_recorded_histories) *)
+Theorem C03_calm_checkable : forall hc hu w, calmb hc hu w = true -> calm hc hu w.
+Proof. exact calmb_sound. Qed.
+Print Assumptions C03_calm_checkable.
+
 (* non-vacuity: a new object with two creation handlers (one-by-one), the first failing twice with a retry delay of
    5 ticks before it succeeds: the start state is calm, and the forced steps bring it to rest, with three
    invocations of handler 0 (retries 0, 1, 2) and one of handler 1, all on essence 7 *)
